@@ -28,6 +28,9 @@ R = "AmplitudeChain.read_ampgen"
 def run(ctx, ss):
     for r, f in (("C20.1", c20_1), ("C20.3", c20_3), ("C20.4", c20_4), ("C20.5", c20_5)):
         ctx.guard(r, f, ss)
+    # C20.6: nothing on the way from the observed entry points is memoised on a parser / tree / path / container (shared.py)
+    from .shared import memo_for
+    ctx.guard("C20.6", memo_for, ss, "C20", "C20.6", "a conversion")
 
 
 def _class_state_writes(ss):
@@ -235,8 +238,10 @@ def c20_5(ctx, ss):
     allowed_attrs = {"all_particles", "final_particles", "cartesian", "pars", "consts"}
     # attributes written on the read path are judged by C20.1/C20.2 (must be re-initialised through cls at every read)
     allowed_attrs |= {a for a, ws_ in _class_state_writes(ss).items() if any(w[0].qualname in READ_PATH for w in ws_)}
+    from .shared import ENTRIES
+    reach = ef.cg.reach([e for e in ENTRIES["C20"] + ENTRIES["C17"] if e in ef.cg.funcs])      # helpers in other modules (utils/) that a read runs
     for k, ff in ef.cg.funcs.items():
-        if not ff.module.startswith("modeling/"):
+        if not (ff.module.startswith("modeling/") or k in reach):
             continue
         for w in ef.local[k]:
             n += 1
